@@ -276,9 +276,10 @@ func forInnerLabels(f *forExpander) forStateFn {
 				// the labels of this block are written in front of its first
 				// line; if that line is a nested FOR without a count variable
 				// they would be read as its count variable, so give it an
-				// unused one and they stay labels
+				// unused one and they stay labels (derived from this block's
+				// own count variable, so that it is new at every level)
 				if f.forDepth == 0 && len(f.labelBuf) == 0 && len(f.forLineLabelsToWrite) > 0 {
-					f.labelBuf = append(f.labelBuf, "__for_unnamed")
+					f.labelBuf = append(f.labelBuf, "__for_unnamed_"+f.forCountLabel)
 				}
 				f.forDepth += 1
 				return forInnerEmitLabels
